@@ -7,7 +7,7 @@ PROFILE = gen.Profile(
     max_states=6, extra_trans=(2, 10), p_multi_event=0.4, max_events=3,
     p_group=dict(validators=0.25, cond=0.6, unless=0.45, before=0.15, on=0.2, after=0.1, enter=0.15, exit=0.1),
     p_conv=0.1, p_nested=0.1, p_raise=0.05, p_validator_raise=0.5, p_unknown_event=0.2, n_ops=(4, 30),
-    p_rtc_off=0.3, p_allow=0.4,
+    p_rtc_off=0.3, p_allow=0.4, p_set_allow=0.06,
 )
 PROFILE_ASYNC = gen.Profile(**{**PROFILE.__dict__, "p_coro": 0.5, "drivers": ("facade", "loop"), "p_rtc_off": 0.0})
 
